@@ -32,6 +32,7 @@ def gen_ops(tier, rng):
         ops.append(f'l2c {geo_gens.fb(lo)} {geo_gens.fb(la)} {ref_res(c)}')
     return ops
 
+@common.guarded(lambda **a: f"centre round trip of cell {hex(a['c'])}", lambda **a: {'cell': a['c']})
 def check_cell(drv, c, fails):
     a5 = drv.a5
     r = ref_res(c)
